@@ -27,7 +27,7 @@ ExactClause(c) == IF c.isnan THEN "exact_centre_of_symmetric_or_quadratic_source
 PairClause(c) ==
   IF c.isnan1 # c.isnan2 THEN "commutes_with_" \o c.rel
   ELSE IF c.isnan1 THEN "ok"
-  ELSE LET t == IF c.rel \in {"rescale", "maskedvalues"} THEN <<c.x1, c.y1>> ELSE D4(c.rel, c.x1, c.y1, c.w * S - (S - 1), c.h * S - (S - 1)) IN
+  ELSE LET t == IF c.rel \in {"rescale", "rescale_to_small_units", "maskedvalues"} THEN <<c.x1, c.y1>> ELSE D4(c.rel, c.x1, c.y1, c.w * S - (S - 1), c.h * S - (S - 1)) IN
        \* D4 on fixed-point coordinates: x -> (w-1)*S - x ; written through w*S-(S-1) so that w-1-x scales correctly
        IF ~Near(c.x2, t[1]) \/ ~Near(c.y2, t[2]) THEN "commutes_with_" \o c.rel ELSE "ok"
 \* one iteration record: window of the probe call (origin and shape read from the index-valued error cutout), mask bits, peaks
